@@ -24,7 +24,8 @@ EXPLANATION = (
     "deep_immutable=True and pack_children forwards it; the reader refuses a non-empty rwcap and mutable children "
     "when the directory is immutable and creates children with deep_immutable=not self.is_mutable(); (6) "
     "unknown-cap prefixes: strip_prefix_for_ro strips a prefix only after startswith of the same prefix, keeps "
-    "'imm.' only when not deep_immutable, and UnknownNode re-adds / converts prefixes under the matching tests. "
+    "'imm.' only when not deep_immutable, and UnknownNode re-adds / converts prefixes under the matching tests "
+    "(path-wise; `X.startswith((P, Q))` counts as `P or Q`: one of them on the true edge, neither on the false edge). "
     "(7) every node class (DirectoryNode, Mutable/Immutable/Literal file nodes, ProhibitedNode, UnknownNode) answers "
     "is_allowed_in_immutable_directory() exactly as 'not is_mutable()' - for unknown nodes exactly as 'raise_error() "
     "passes and get_write_uri() is empty' - decided by evaluating the predicate methods' CFGs over every truth "
@@ -336,6 +337,88 @@ def is_empty_fact(f, var):
     return op == "<" and a == ln and b == "1"
 
 
+def startswith_fact(f):
+    """An edge fact about `X.startswith(P)` / `X.startswith((P, Q, ..))` -> (holds, normal form of X, [normal forms
+    of the prefixes]); the tuple form is the disjunction of its members: on the true edge one of them is there, on
+    the false edge none.  Any other fact -> None.  (The fact's normal form is parsed, never the source.)"""
+    if not f or f[0] not in ("truth", "false") or f[2] is not None:
+        return None
+    try:
+        c = ast.parse(f[1], mode="eval").body
+    except (SyntaxError, ValueError):
+        return None
+    if not (isinstance(c, ast.Call) and isinstance(c.func, ast.Attribute) and c.func.attr == "startswith"
+            and len(c.args) == 1 and not c.keywords):
+        return None
+    a = c.args[0]
+    ms = list(a.elts) if isinstance(a, ast.Tuple) else [a]
+    if not ms or any(isinstance(m, ast.Starred) for m in ms):
+        return None
+    return (f[0] == "truth", norm_plain(c.func.value), [norm_plain(m) for m in ms])
+
+
+# What a path knows about the prefixes of one local: facts (x, kind, polarity); kind is a prefix (normal form) or, for
+# the true edge of a tuple test that was not told apart yet, a frozenset of prefixes ("one of these is there").
+def pfx_learn(facts, x, names, pol, disjoint=None):
+    """The facts after the edge `x.startswith(<names>)` is pol; None when that contradicts what the path knows.
+    disjoint: {prefix: prefixes that cannot be there as well}."""
+    disjoint = disjoint or {}
+    facts = set(facts)
+    todo = [(frozenset(names), True)] if pol else [(frozenset([nm]), False) for nm in names]
+    while todo:
+        ks, p = todo.pop()
+        if p:
+            rem = frozenset(nm for nm in ks if (x, nm, False) not in facts)
+            if not rem:
+                return None
+            if len(rem) == 1:
+                nm = next(iter(rem))
+                if (x, nm, True) in facts:
+                    continue
+                facts.add((x, nm, True))
+                facts -= {f for f in facts if f[0] == x and isinstance(f[1], frozenset) and nm in f[1]}
+                todo.extend((frozenset([o]), False) for o in sorted(disjoint.get(nm, ())))
+            elif not any((x, nm, True) in facts for nm in rem):
+                facts.add((x, rem, True))
+        else:
+            (nm,) = ks
+            if (x, nm, True) in facts:
+                return None
+            if (x, nm, False) in facts:
+                continue
+            facts.add((x, nm, False))
+            for f in [f for f in facts if f[0] == x and isinstance(f[1], frozenset) and nm in f[1]]:
+                facts.discard(f)
+                todo.append((f[1] - {nm}, True))
+    return frozenset(facts)
+
+
+def pfx_found(facts, x, ok):
+    """The path found `x` to start with a prefix satisfying `ok` (whichever of a tuple test's members it was)."""
+    return any(f[0] == x and f[2] and (all(ok(m) for m in f[1]) if isinstance(f[1], frozenset) else ok(f[1]))
+               for f in facts)
+
+
+def prefix_knowledge(cfg, fnm, x, target, disjoint=None):
+    """[(facts, Witness)]: every feasible way to arrive at the node `target`, with what the path knows about the
+    prefixes of the local `x` as it is there (re-binding x forgets).  Infeasible paths (contradictory prefix tests
+    of the same string) are not followed."""
+    def transfer(n, lab, nxt, st):
+        sf = startswith_fact(fnm.edge_fact(n, lab))
+        if sf is not None and sf[1] == x:
+            st = pfx_learn(st, x, sf[2], sf[0], disjoint)
+            if st is None:
+                return None
+        if st and x in node_stores(n):
+            st = frozenset()
+        return st
+
+    def key(ps):
+        return (ps[0], sorted((sorted(k) if isinstance(k, frozenset) else [k], p) for (_x, k, p) in ps[1]))
+    visited, parent = explore(cfg, frozenset(), transfer)
+    return [(st, witness(cfg, parent, (nid, st))) for (nid, st) in sorted(visited, key=key) if nid == target.id]
+
+
 def never_truthy(e):
     """The expression cannot evaluate to a truthy value whatever its variables hold (x and None, b'' ...)."""
     if isinstance(e, ast.Constant):
@@ -452,6 +535,8 @@ class InitEval:
             if isinstance(v, tuple) and v[0] == "cap" and isinstance(e.slice, ast.Slice):
                 return v
             self.bad("subscript", e)
+        if isinstance(e, ast.Tuple) and not any(isinstance(x, ast.Starred) for x in e.elts):
+            return ("tup", tuple(self.ev(x, st, env) for x in e.elts))       # only startswith() knows what to do with it
         if isinstance(e, ast.Call):
             return self.call(e, st, env)
         self.bad("expression", e)
@@ -465,8 +550,11 @@ class InitEval:
             p = self.ev(e.args[0], st, env)
             if v is None:
                 raise _Crash()
-            if isinstance(v, tuple) and v[0] == "cap" and isinstance(p, tuple) and p[0] == "sym":
-                return env.leaf("%s.startswith(%s)" % (v[1], p[1]))
+            # X.startswith((P, Q, ..)) is X.startswith(P) or X.startswith(Q) or ..
+            ps = list(p[1]) if (isinstance(p, tuple) and p[0] == "tup") else [p]
+            if isinstance(v, tuple) and v[0] == "cap" and all(isinstance(q, tuple) and q[0] == "sym" for q in ps):
+                hits = [env.leaf("%s.startswith(%s)" % (v[1], q[1])) for q in ps]      # every leaf is asked for
+                return any(hits)
             self.bad("startswith", e)
         if tail == "isinstance" and len(e.args) == 2:
             v = self.ev(e.args[0], st, env)
@@ -1371,6 +1459,8 @@ def run(ctx: Context):
         scfg = sp.cfg()
         sn = FlowNorm(sp)
         p0 = first_positional_params(sp)[0]
+        # a string starts with at most one of the two alleged prefixes (they are required to be prefix-free below)
+        DISJ = {IMM_P: {RO_P}, RO_P: {IMM_P}}
         for n in reachable_returns(sp):
             v = n.ast.value
             r.site(sp, n.ast, "strip return")
@@ -1382,19 +1472,17 @@ def run(ctx: Context):
                 continue
             pref = m.group(1)
 
-            def has_prefix(x, lab, _p=pref):
-                return sn.edge_fact(x, lab) == ("truth", "%s.startswith(%s)" % (p0, _p), None)
-            for (t, w) in find_path_avoiding(scfg, lambda x, _n=n: x is _n, gate_edge=has_prefix):
-                r.violation(sp, sp.loc(t.ast), "len(%s) bytes are stripped from a cap that was not tested to start "
-                            "with %s" % (pref, pref), w)
+            for (facts, w) in prefix_knowledge(scfg, sn, p0, n, DISJ):
+                if not pfx_found(facts, p0, lambda p_, _p=pref: p_ == _p):
+                    r.violation(sp, sp.loc(n.ast), "len(%s) bytes are stripped from a cap that was not tested to start "
+                                "with %s" % (pref, pref), w)
+                    break
         # returning an imm.-prefixed cap unchanged only when not deep_immutable; stripping imm. only when deep_immutable
 
-        def imm(x, lab):
-            return sn.edge_fact(x, lab) == ("truth", "%s.startswith(ALLEGED_IMMUTABLE_PREFIX)" % p0, None)
         for n in reachable_returns(sp):
             v = n.ast.value
             # is this return on the imm. branch?
-            on_imm = not find_path_avoiding(scfg, lambda x, _n=n: x is _n, gate_edge=imm)
+            on_imm = all(pfx_found(facts, p0, lambda p_: p_ == IMM_P) for (facts, _w) in prefix_knowledge(scfg, sn, p0, n, DISJ))
             if not on_imm:
                 continue
             unchanged = v is not None and sn.norm(n, v) == p0
@@ -1419,12 +1507,11 @@ def run(ctx: Context):
                 x = parts[0].id
                 # stored as given: must already carry a prefix
 
-                def pre(m, lab, _x=x):
-                    f = un2.edge_fact(m, lab)
-                    return bool(f) and f[0] == "truth" and re.match(r"^%s\.startswith\(ALLEGED_\w+_PREFIX\)$" % re.escape(_x), f[1]) is not None
-                for (t, w) in find_path_avoiding(ucf, lambda y, _n=n: y is _n, gate_edge=pre):
-                    r.violation(u, u.loc(t.ast), "an unknown ro cap is stored without a prefix and without having "
-                                "tested that it carries one", w)
+                for (facts, w) in prefix_knowledge(ucf, un2, x, n, DISJ):
+                    if not pfx_found(facts, x, lambda p_: re.match(r"^ALLEGED_\w+_PREFIX$", p_) is not None):
+                        r.violation(u, u.loc(n.ast), "an unknown ro cap is stored without a prefix and without having "
+                                    "tested that it carries one", w)
+                        break
                 continue
             if len(parts) == 2 and isinstance(parts[0], ast.Name):
                 added = parts[0].id
@@ -1433,18 +1520,18 @@ def run(ctx: Context):
                 if m:
                     x, stripped = m.group(1), m.group(2)
 
-                    def pre(mm, lab, _x=x, _p=stripped):
-                        return un2.edge_fact(mm, lab) == ("truth", "%s.startswith(%s)" % (_x, _p), None)
-                    for (t, w) in find_path_avoiding(ucf, lambda y, _n=n: y is _n, gate_edge=pre):
-                        r.violation(u, u.loc(t.ast), "prefix %s is cut off a cap not tested to start with it" % stripped, w)
+                    for (facts, w) in prefix_knowledge(ucf, un2, x, n, DISJ):
+                        if not pfx_found(facts, x, lambda p_, _p=stripped: p_ == _p):
+                            r.violation(u, u.loc(n.ast), "prefix %s is cut off a cap not tested to start with it" % stripped, w)
+                            break
                     continue
                 if isinstance(parts[1], ast.Name):
                     x = parts[1].id
 
-                    def nopre(mm, lab, _x=x, _p=added):
-                        return un2.edge_fact(mm, lab) == ("false", "%s.startswith(%s)" % (_x, _p), None)
-                    for (t, w) in find_path_avoiding(ucf, lambda y, _n=n: y is _n, gate_edge=nopre):
-                        r.violation(u, u.loc(t.ast), "prefix %s may be added to a cap that already carries it" % added, w)
+                    for (facts, w) in prefix_knowledge(ucf, un2, x, n, DISJ):
+                        if (x, added, False) not in facts:
+                            r.violation(u, u.loc(n.ast), "prefix %s may be added to a cap that already carries it" % added, w)
+                            break
                     continue
             r.violation(u, u.loc(a), "unrecognised form of ro_uri store: %s" % src(u, v))
         # prefix constants: dirnode/unknown use uri's constants (folded for the evidence)
